@@ -806,6 +806,16 @@ class RequestorLoop(LoopSpec):
     def havoc(self, I, fr):
         for nm in self.lists:
             fr.locals[nm] = PriorList(nm)
+        # a role pair that exists before the loop and is assigned inside it may carry a value from an EARLIER iteration into this
+        # one: at the head of an arbitrary iteration it is an arbitrary role pair (not an opaque object - the tables the code
+        # looks it up in are total over role pairs, so an opaque value would only produce a spurious KeyError)
+        assigned = set(I.assigned_names(self.loop.body))
+        for nm in sorted(assigned):
+            v = fr.locals.get(nm, self)
+            if v is not self and not isinstance(v, PriorList) and (isinstance(v, tuple) and len(v) == 2 and all(x is None or isinstance(x, bool) for x in v)
+                                                                 or (isinstance(v, Env) and nm.endswith("roles"))):
+                vals = (None, True, False)
+                fr.locals[nm] = (vals[I.choose(3, f"{nm}[0] left by an earlier iteration")], vals[I.choose(3, f"{nm}[1] left by an earlier iteration")])
         I.ghost["iter"] = "requestor"
 
     def on_exit(self, I, fr):
